@@ -161,6 +161,8 @@ class World:
             with warnings.catch_warnings(record=True) as wlist:
                 warnings.simplefilter("always")
                 st = stackscope.extract(self.obj(case["root"]), with_contexts=any(case["C"]) or case["tid"] % 2 == 0)
+        except Endless:
+            raise               # the watchdog of main(), not an exception of the library's
         except BaseException as ex:  # extract is documented never to raise
             return {"pc": "escaped", "exc": repr(ex)}
         got["pc"] = "done"
@@ -247,14 +249,15 @@ def compare(case, got):
     return bad
 
 
+class Endless(BaseException):
+    pass
+
+
 def main():
     data = json.load(open(sys.argv[1]))
     world = World(data["NF"], data["NW"], data["NL"])
     results = []
     import signal
-
-    class Endless(BaseException):
-        pass
 
     def on_alarm(signum, frame):
         raise Endless()
